@@ -5,6 +5,7 @@ CONSTANTS
  MaxTicket = 8
  MaxStale = 2
  MaxExh = 1
+ MaxReins = 0
  AllowRemove = TRUE
  Dev = {}
 INVARIANTS TypeOK NoLostWakeup NoStreamLost ReadyHasSignal FairBoundTight LiveInHeap YieldBound
